@@ -18,6 +18,8 @@ import (
 	"testing"
 	"time"
 
+	"github.com/anyproto/any-sync/commonspace/object/acl/list"
+
 	"verif/sim/core"
 	"verif/sim/simlib"
 )
@@ -144,8 +146,8 @@ func runC11(r *core.Run) {
 	defer os.RemoveAll(w.dir)
 	w.owner, w.wr, w.rd = simlib.NewAccount("owner"), simlib.NewAccount("writer"), simlib.NewAccount("reader")
 	w.space = simlib.NewSpace(w.owner, 0)
-	w.space.Add(2, w.wr) // writer
-	w.space.Add(1, w.rd) // reader
+	w.space.Add(list.AclPermissionsWriter, w.wr)
+	w.space.Add(list.AclPermissionsReader, w.rd)
 	defer w.closeAll()
 	// which entry-point families this run attacks (swarm: a random non-empty subset)
 	families := []string{"tree", "acl", "kv", "diff", "handshake", "payload", "crypto", "encoding", "pubsub"}
@@ -157,6 +159,9 @@ func runC11(r *core.Run) {
 	}
 	if len(on) == 0 {
 		on = []string{families[s.Choose("family", len(families))]}
+	}
+	if f := os.Getenv("VERIF_BYZ_FAMILY"); f != "" { // debugging aid: one family only
+		on = []string{f}
 	}
 	r.SetCfg("families", strings.Join(on, ","))
 	steps := s.Range("steps", 20, 120)
